@@ -1,7 +1,7 @@
 (* One entry point for the OCaml runner: op name and byte-string arguments
    in, (result bytes, tag text) out.  All structure is decoded here, in Coq. *)
 From Coq Require Import NArith ZArith List Bool String.
-From GJ Require Import Base.Bytes Base.Show Model.Int Model.StrEnc Model.StrDec Model.Compact Model.Iface Model.Path Model.KeyBitmap Spec.Json Gen.Resets Model.Mem Base.TypeAddrBase Gen.TypeAddr Model.TypeCache Model.Stream Model.StreamInst Model.Enc.
+From GJ Require Import Base.Bytes Base.Show Model.Int Model.StrEnc Model.StrDec Model.Compact Model.Iface Model.Path Model.KeyBitmap Spec.Json Gen.Resets Model.Mem Base.TypeAddrBase Gen.TypeAddr Model.TypeCache Model.Stream Model.StreamInst Model.Enc Gen.Query Model.Query.
 Import ListNotations.
 Open Scope N_scope.
 Open Scope string_scope.
@@ -78,7 +78,7 @@ Definition dispatch (op : list N) (args : list (list N)) : list N * list N :=
     (match iface_unmarshal (fun _ => N.eqb (nth 0 (arg 0 args) 48) 49) (arg 1 args) with
      | COk _ => [65] | CErr => [82] | CFuel => str "fuel" | CStuck => str "stuck" end, [])
   else if list_eqb op (str "c20.build") then
-    (match build (arg 0 args) with
+    (match Path.build (arg 0 args) with
      | BStuck => str "stuck" | BFuel => str "fuel" | BErr => [69]
      | BOk nodes sq dq => 79 :: print_path nodes ++ [32] ++ show_bool sq ++ show_bool dq
      end, [])
@@ -129,6 +129,31 @@ Definition dispatch (op : list N) (args : list (list N)) : list N * list N :=
     (* arg0: a value in the wire format of Model/Enc.v *)
     (match parse_jv (S (List.length (arg 0 args))) (arg 0 args) with
      | Some (v, []) => marshal v
+     | _ => str "unparsed"
+     end, [])
+  else if list_eqb op (str "c19.sel") then
+    (* arg0: code, arg1: value, arg2: query or empty (no query) -- wire formats of Model/Query.v *)
+    (match parse_code (S (List.length (arg 0 args))) (arg 0 args), parse_val (S (List.length (arg 1 args))) (arg 1 args) with
+     | Some (c, []), Some (v, []) =>
+         match arg 2 args with
+         | [] => marshal (encode c v)
+         | qw => match parse_fq (S (List.length qw)) qw with
+                 | Some (q, []) => marshal (encode (filt c q) v)
+                 | _ => str "unparsed query"
+                 end
+         end
+     | _, _ => str "unparsed"
+     end, [])
+  else if list_eqb op (str "c19.qs") then
+    (* arg0: query; result: its QueryString and whether Build gives the query back *)
+    (match parse_fq (S (List.length (arg 0 args))) (arg 0 args) with
+     | Some (q, []) =>
+         let thr := match query_subfields_threshold with Some n => n | None => 99%nat end in
+         marshal (qj_jv (qjson thr q)) ++ [32] ++
+         match Query.build (qjson thr q) with
+         | Some q' => if qj_eqb (qjson 0 q') (qjson 0 q) then str "same" else str "other"
+         | None => str "unmodelled"
+         end
      | _ => str "unparsed"
      end, [])
   else (str "no-model", []).
